@@ -62,8 +62,15 @@ Definition case_ok (c : case) : bool :=
 
 Definition failing (cs : list case) : list nat :=
   flat_map (fun c => if case_ok c then [] else [cid c]) cs.
-Definition details (cs : list case) : list (nat * list obs) :=
-  flat_map (fun c => if case_ok c then [] else [(cid c, case_result c)]) cs.
+(* for the replay file: positions of the disagreeing observations, and the model's observations *)
+Fixpoint bad_positions (m : cmpmode) (n : nat) (got : list obs) (sn : list (option obs)) : list nat :=
+  match got, sn with
+  | g :: got', s :: sn' => if obs_ok m g s then bad_positions m (S n) got' sn' else n :: bad_positions m (S n) got' sn'
+  | _, _ => []
+  end.
+Definition details (cs : list case) : list (nat * list nat * list obs) :=
+  flat_map (fun c => if case_ok c then [] else
+     [(cid c, bad_positions (cmode c) O (case_result c) (seen c), case_result c)]) cs.
 
 (* notations used by the generated literals *)
 Definition z (n : Z) (d : positive) : Qc := q n d.
